@@ -3,7 +3,9 @@
 (a) Aspartix reader: the four line patterns, re-extracted from the current source, against the line grammar, decided by
     z3's string theory over every ASCII line up to a length bound (tv/apx_patterns.py); counterexamples are replayed
     through the real AspartixReader.
-(b) ICCMA'23 reader: Kani harnesses over arbitrary byte buffers (kani/src/h_io.rs), when present.
+(b) ICCMA'23 reader: the index guards and id arithmetic (attack lines, query argument, preamble count), re-extracted from
+    the current source and decided by z3 over all 64-bit token values and declared sizes (tv/iccma_guard.py);
+    counterexamples are replayed through the real Iccma23Reader (tv/src/iccmaread.rs).
 """
 import json
 import os
@@ -34,6 +36,17 @@ def run(tier, seed):
             res.violations.append(("Aspartix reader: %s: %s" % (v["what"], why), path))
         else:
             res.inconclusive.append("SMT counterexample did not replay against the real reader: %r (%s)" % (v["line"], why))
+    import iccma_guard
+    g = iccma_guard.run(tier)
+    res.inconclusive += g["inconclusive"]
+    for v in g["violations"]:
+        good, why = iccma_guard.replay(v)
+        replayed += 1
+        if good:
+            path = common.write_replay("C13", "iccma_%s" % v["query"], dict(v, replay=why))
+            res.violations.append(("ICCMA'23 reader: %s (token value %s, %s declared arguments): %s" % (v["what"], v["v"], v["N"], why), path))
+        else:
+            res.inconclusive.append("SMT counterexample did not replay against the real ICCMA'23 reader: v=%s N=%s (%s)" % (v["v"], v["N"], why))
     kani_part = None
     try:
         import kani_run
@@ -44,21 +57,25 @@ def run(tier, seed):
                 res.violations.append(("%s: %s" % (n, d), path))
     except ImportError:
         pass
-    nq = len(r.get("queries", []))
+    nq = len(r.get("queries", [])) + len(g.get("queries", []))
     res.coverage = {
         "states": max(1, nq),
         "transitions": max(1, nq),
         "traces_validated_against_impl": replayed,
         "samples": [{"pattern": k, "regex": v} for k, v in r.get("patterns", {}).items()] or ["no pattern extracted"],
-        "smt_queries": r.get("queries", []),
-        "solver_s": round(r.get("solver_s", 0.0), 3),
-        "functions_encoded": ["io::aspartix_reader::{ARG_LINE_PATTERN,ARG_LINE_ARG_NAME_PATTERN,ATT_LINE_PATTERN,ATT_LINE_ARG_NAMES_PATTERN} (pattern strings re-extracted from the source, two-stage match of try_read_arg_line / try_read_att_line)"],
+        "smt_queries": r.get("queries", []) + g.get("queries", []),
+        "solver_s": round(r.get("solver_s", 0.0) + g.get("solver_s", 0.0), 3),
+        "iccma_sites": g.get("sites", {}),
+        "iccma_translator_validation": "%s concrete (value, size) pairs evaluated in the encoding and through the real reader" % g.get("validated", 0),
+        "functions_encoded": ["io::aspartix_reader::{ARG_LINE_PATTERN,ARG_LINE_ARG_NAME_PATTERN,ATT_LINE_PATTERN,ATT_LINE_ARG_NAMES_PATTERN} (pattern strings re-extracted from the source, two-stage match of try_read_arg_line / try_read_att_line)",
+                              "io::iccma23_reader::Iccma23Reader::read (read_arg closure: parse type, match guard, value; id arithmetic of new_attack_by_ids), Iccma23Reader::read_arg_from_str (guard, id), read_preamble (count guard): expressions re-extracted from the source, 64-bit bit-vector semantics with Rust signedness and overflow"],
         "bounds": "every ASCII line without line terminator of length <= %s (states/transitions = SMT queries discharged; the "
                   "solver decides over all such lines); outside: non-ASCII lines, the control flow around the patterns "
-                  "(argument after attack, undeclared argument, blank lines), the ICCMA'23 reader unless listed under kani" % r.get("bound"),
+                  "(argument after attack, undeclared argument, blank lines). ICCMA'23 reader: every 64-bit value of an index token and every declared size 0..=isize::MAX (unbounded within the machine word); outside: its tokenisation (lines, white space, str::parse accepting a leading '+'), comments/blank-line control flow, duplicate attack lines" % r.get("bound"),
         "kani": kani_part,
     }
     res.assumptions = [
+        "ICCMA'23 part: str::parse::<isize/usize> returns the integer the decimal token denotes or an error (std); the extraction regexes of tv/iccma_guard.py locate the guard expressions (a miss is inconclusive)",
         "z3 string/regex theory; \\s, \\d, [:alpha:], '.' of the regex crate restricted to ASCII (White_Space = 9..13,32; '.' = any char but \\n)",
         "the translation of the regex subset (^ $ \\s \\d . * + ? groups, bracket classes) is hand-written; a construct outside the subset makes the check inconclusive",
         "reference grammar: WS* arg( WS* ID WS* ). WS*   /   WS* att( WS* ID WS* , WS* ID WS* ). WS*   with ID = [_A-Za-z][_A-Za-z0-9]*",
@@ -70,6 +87,10 @@ def replay(path):
     common.build_native(os.path.join(VERIF, "tv"))
     import apx_patterns
     v = json.load(open(path))
-    good, why = apx_patterns.replay(v)
+    if "site" in v:
+        import iccma_guard
+        good, why = iccma_guard.replay(v)
+    else:
+        good, why = apx_patterns.replay(v)
     print(("REPRODUCED: " if good else "NOT REPRODUCED: ") + why)
     return 1 if good else 0
